@@ -746,11 +746,9 @@ def run(chk):
             corr_bad.append(dict(rec, what="extracted model rejects the recorded trace", verdict=v,
                                  around=r["labels"][max(0, int(v.split()[1]) - 6): int(v.split()[1]) + 2]))
             continue
-        # final scalars of the store vs the model
-        f = dict(x.split("=") for x in v.split()[2:])
-        fin = r["po"]["final"]
-        if fin and (int(f["seq"]) != fin[0] or int(f["memseq"]) != fin[1]):
-            corr_bad.append(dict(rec, what="final seq_no / mem_seq_no differ", model=f, impl=fin))
+        # (the store's scalars seq_no / mem_seq_no / imm_trigger / has_imm / visible are compared with the model's
+        # at every hook that reports them, through the @assertions of the labels; the FINAL line of the harness is
+        # not used: it is read after the recorder has stopped, so a rollover can slip in between)
 
     # sensitivity of the acceptor itself: the pre-repair machine must reject what the repaired code produces
     # whenever a snapshot was taken with a write in flight (its timestamp would have been the assigned number)
@@ -763,7 +761,7 @@ def run(chk):
         "rule": "one evaluation = one multi-threaded session of the real store (2..8 client threads + the real memtable thread + 0..2 real compaction threads; put / del / multi-key batches incl. duplicates, deletes and empty batches / get / full and ranged scans; memtable sizes from 150 B (constant rollover) to unbounded; seeded yield probability 0..0.8 at the hook points; 6 forced gate schedules) whose recorded event trace (one SplitMix64 seed for the programs, option set and yield seed) is replayed on the extracted model and atomic store and whose invocation/response history is checked by the direct oracle; non-trivial = at least 40 model labels and at least one read whose snapshot was taken while a write with a larger sequence number was assigned and not yet complete; distinct = distinct label sequences",
         "samples": [case_line(cases[ncorpus])[:400], case_line(cases[-1])[:400]],
         "input_distribution": stats, "corpus_cases": ncorpus, "forced_schedules": nforced,
-        "correspondence": "real store (hooks ea9fafc: sync42::verif recorder + lsmtk kvs verif_events) vs extracted Conc.KvsConc.step and Conc.Spec.sstep, label by label; final seq_no / mem_seq_no compared",
+        "correspondence": "real store (hooks ea9fafc: sync42::verif recorder + lsmtk kvs verif_events) vs extracted Conc.KvsConc.step and Conc.Spec.sstep, label by label, with the store's scalars (seq_no, mem_seq_no, imm_trigger, has_imm, read timestamp) asserted equal to the model's at every hook that reports them",
         "direct_oracle": "writes ordered by their assigned sequence numbers; every get/scan must equal the store contents at one cut of that order between (max seq completed before its invocation) and (max seq assigned before its response), cuts non-decreasing along real time; on failure the property text itself is evaluated: per-key feasibility and batch tearing",
         "disagreements_impl_vs_model": len(corr_bad), "disagreements_impl_vs_spec": len(prop_bad), "machinery_failures": len(mach_bad),
         "acceptor_sensitivity": "%d of the first %d recorded traces are rejected by the extracted PRE-repair machine (step_unrepaired: snapshot at the last assigned sequence number)" % (unrep_rejects, len(sample)),
